@@ -5,7 +5,12 @@
    Method: the definitions of the 54 entries are pulled from the regenerated program (unfold_fix); the first-order
    quantities are expressed through X1c and its derivatives using X1c*Y1s = sG*spsi, kappa*X1c = etabar (both
    differentiated with the Leibniz rule), Y2s/Y2c through the two algebraic O(r^2) relations (and their derivatives), and
-   every identity is then closed by [field] modulo sG^2 = spsi^2 = 1. *)
+   every identity is then closed by [field] modulo sG^2 = spsi^2 = 1.
+   PROVED: (d) two_ways (27 entries), (a) sym12, (b) divfree, (e) tangent_contraction, (f) scale_length,
+   (g) cylindrical_is_frenet / cartesian_is_rotation_of_that, and of (c) the tangent slice a = 2 for ANY current
+   (tangent_slice_curl; needs the sigma equation and its derivative) with its vacuum corollary.
+   NOT PROVED here: the rest of (c) (sym23 for a = 0, 1 and harmonic), which needs every O(r^2) definition (Z2*, X2s, X2c,
+   B20, G2), the sigma equation and the two O(r^2) differential equations. *)
 From Coq Require Import Reals String List Lra Lia QArith Qreals FunctionalExtensionality.
 From QSC Require Import Expr Shallow.
 From QSCGen Require Import G_init_axis G_r1_diagnostics G_calculate_r2 G_calculate_grad_grad_B_tensor
@@ -457,6 +462,92 @@ Section Facts.
     destruct a as [|[|[|a]]]; try lia; destruct b as [|[|[|b]]]; try lia;
       first [apply tan_00|apply tan_01|apply tan_02|apply tan_10|apply tan_11|apply tan_12|apply tan_20|apply tan_21|apply tan_22].
   Qed.
+  (* ---- (c), tangent slice only: the sigma equation and its derivative ---- *)
+  Variable VR : string -> I -> R.
+  Hypothesis HR : stage O residual S VR.
+  Hypothesis Hsig : sigma_solved O S VR.
+  Lemma F_ebc i : S "s.etabar_squared_over_curvature_squared" i = X1c i * X1c i.
+  Proof.
+    rewrite F_X1c. rewrite <- (st_agree _ _ _ _ HA "s.etabar_squared_over_curvature_squared" eq_refl).
+    unfold_fix O init_axis (st_fix _ _ _ _ HA) "s.etabar_squared_over_curvature_squared".
+    loc2attr init_axis HA "curvature" "s.curvature". to_state HA. field. apply (adm_kappa S Hadm).
+  Qed.
+  Lemma S_sigma i : S "s.sigma" i = sG i * spsi i * Y1c i * X1c i.
+  Proof.
+    rewrite F_Y1c, F_X1c. pose proof (adm_sG S Hadm i) as Es; pose proof (adm_spsi S Hadm i) as Ep.
+    field [Es Ep]. split; [apply (adm_kappa S Hadm)|apply (adm_eta S Hadm)].
+  Qed.
+  Definition sigE (k : I) : R :=
+    sG k * spsi k * (S "s.d_Y1c_d_varphi" k * X1c k + Y1c k * S "s.d_X1c_d_varphi" k)
+    + S "s.iotaN" k * (X1c k * X1c k * X1c k * X1c k + 1 + Y1c k * Y1c k * X1c k * X1c k)
+    - 2 * X1c k * X1c k * (- spsi k * S "s.torsion" k + S "s.I2" k / B0 k) * sG k * aGB k.
+  Lemma R_sig k : sigE k = 0.
+  Proof.
+    destruct Hsig as (Hxs & Hxi & Hr & Hpin & Hio).
+    rewrite <- (Hr k).
+    unfold_fixes O residual (st_fix _ _ _ _ HR) ("r" :: "sigma#2" :: "sigma" :: "iota" :: nil)%list.
+    rewrite Hxs, Hxi. to_state HR. rewrite Hpin. rewrite <- Hio. rewrite F_ebc, F_G0, (S_sigma k).
+    change (o_D O (S "s.sigma") k / S "s.d_varphi_d_phi" k) with (Dv (S "s.sigma") k).
+    rewrite (Dv_ext O S _ _ k S_sigma). dv_push.
+    rewrite !(Dv_isconst O HD S sG), !(Dv_isconst O HD S spsi) by (apply (adm_sG_const S Hadm) || apply (adm_spsi_const S Hadm)).
+    rewrite <- F_dY1c, <- F_dX1c. unfold sigE. pose proof (adm_sG S Hadm k) as Es; pose proof (adm_spsi S Hadm k) as Ep.
+    qsimp. field [Es Ep]. apply Rgt_not_eq, (adm_B0 S Hadm).
+  Qed.
+  Ltac consts2 i :=
+    let c1 := fresh "c" in let c2 := fresh "c" in let c3 := fresh "c" in let c4 := fresh "c" in let c5 := fresh "c" in let c6 := fresh "c" in
+    let E1 := fresh "E" in let E2 := fresh "E" in let E3 := fresh "E" in let E4 := fresh "E" in let E5 := fresh "E" in let E6 := fresh "E" in
+    destruct (adm_sG_const S Hadm) as [c1 E1]; destruct (adm_spsi_const S Hadm) as [c2 E2];
+    destruct (cst_B0 S Hcst) as [c3 E3]; destruct (cst_iotaN S Hcst) as [c4 E4];
+    destruct (cst_lp S Hcst) as [c5 E5]; destruct (cst_I2 S Hcst) as [c6 E6];
+    rewrite ?E1, ?E2, ?E3, ?E4, ?E5, ?E6; cbv beta.
+  Definition sigE2 (k : I) : R :=
+    sG k * spsi k * (S "s.d2_Y1c_d_varphi2" k * X1c k + 2 * S "s.d_Y1c_d_varphi" k * S "s.d_X1c_d_varphi" k + Y1c k * S "s.d2_X1c_d_varphi2" k)
+    + S "s.iotaN" k * (4 * X1c k * X1c k * X1c k * S "s.d_X1c_d_varphi" k + 2 * Y1c k * S "s.d_Y1c_d_varphi" k * X1c k * X1c k
+                       + 2 * Y1c k * Y1c k * X1c k * S "s.d_X1c_d_varphi" k)
+    - 2 * sG k * aGB k * (2 * X1c k * S "s.d_X1c_d_varphi" k * (- spsi k * S "s.torsion" k + S "s.I2" k / B0 k)
+                          + X1c k * X1c k * (- spsi k * S "s.d_torsion_d_varphi" k)).
+  Lemma R_sig2 k : sigE2 k = 0.
+  Proof.
+    assert (E : Dv sigE k = 0) by (rewrite (Dv_ext O S _ (fun _ => 0) k R_sig); apply (Dv_cst O HD)).
+    unfold sigE in E. unfold sigE2. revert E. consts2 k. unfold Rdiv. dv_push. intros HE.
+    etransitivity; [|exact HE]. fin.
+  Qed.
+  Lemma S_dY1c k : S "s.d_Y1c_d_varphi" k =
+    (- Y1c k * S "s.d_X1c_d_varphi" k
+     - sG k * spsi k * (S "s.iotaN" k * (X1c k * X1c k * X1c k * X1c k + 1 + Y1c k * Y1c k * X1c k * X1c k)
+                        - 2 * X1c k * X1c k * (- spsi k * S "s.torsion" k + S "s.I2" k / B0 k) * sG k * aGB k)) / X1c k.
+  Proof.
+    pose proof (adm_sG S Hadm k) as Es; pose proof (adm_spsi S Hadm k) as Ep.
+    match goal with |- _ = ?r => replace (S "s.d_Y1c_d_varphi" k) with (r + sG k * spsi k / X1c k * sigE k) end.
+    - rewrite R_sig. ring.
+    - unfold sigE. field [Es Ep]. nz.
+  Qed.
+  Lemma S_d2Y1c k : S "s.d2_Y1c_d_varphi2" k =
+    (- (2 * S "s.d_Y1c_d_varphi" k * S "s.d_X1c_d_varphi" k + Y1c k * S "s.d2_X1c_d_varphi2" k)
+     - sG k * spsi k * (S "s.iotaN" k * (4 * X1c k * X1c k * X1c k * S "s.d_X1c_d_varphi" k + 2 * Y1c k * S "s.d_Y1c_d_varphi" k * X1c k * X1c k
+                                          + 2 * Y1c k * Y1c k * X1c k * S "s.d_X1c_d_varphi" k)
+                        - 2 * sG k * aGB k * (2 * X1c k * S "s.d_X1c_d_varphi" k * (- spsi k * S "s.torsion" k + S "s.I2" k / B0 k)
+                                              + X1c k * X1c k * (- spsi k * S "s.d_torsion_d_varphi" k)))) / X1c k.
+  Proof.
+    pose proof (adm_sG S Hadm k) as Es; pose proof (adm_spsi S Hadm k) as Ep.
+    match goal with |- _ = ?r => replace (S "s.d2_Y1c_d_varphi2" k) with (r + sG k * spsi k / X1c k * sigE2 k) end.
+    - rewrite R_sig2. ring.
+    - unfold sigE2. field [Es Ep]. nz.
+  Qed.
+  Ltac close2 i := rewrite ?S_d2Y1c, ?S_dY1c; close i.
+  Lemma sl_201 : forall i, S "s.grad_grad_B_2_0_1" i = S "s.grad_grad_B_2_1_0" i.
+  Proof. intros i; gg_entry "s.grad_grad_B_2_0_1" "grad_grad_B_2_0_1#2"; gg_entry "s.grad_grad_B_2_1_0" "grad_grad_B_2_1_0#2"; gg_locals; to_state HG; close2 i. Qed.
+  Lemma sl_202 : forall i, S "s.grad_grad_B_2_0_2" i = S "s.grad_grad_B_2_2_0" i.
+  Proof. intros i; gg_entry "s.grad_grad_B_2_0_2" "grad_grad_B_2_0_2#2"; gg_entry "s.grad_grad_B_2_2_0" "grad_grad_B_2_2_0#2"; gg_locals; to_state HG; close2 i. Qed.
+  Lemma sl_212 : forall i, S "s.grad_grad_B_2_1_2" i - S "s.grad_grad_B_2_2_1" i = 2 * sG i * spsi i * S "s.I2" i * kap i.
+  Proof. intros i; gg_entry "s.grad_grad_B_2_1_2" "grad_grad_B_2_1_2#2"; gg_entry "s.grad_grad_B_2_2_1" "grad_grad_B_2_2_1#2"; gg_locals; to_state HG; close2 i. Qed.
+  Theorem C10_tangent_slice_curl : tangent_slice_curl S.
+  Proof. intros i. unfold G. split; [apply sl_201|split; [apply sl_202|apply sl_212]]. Qed.
+  Theorem C10_vacuum_tangent_slice_symmetric : vacuum_tangent_slice_symmetric S.
+  Proof.
+    intros HI i b c Hb Hc. destruct (C10_tangent_slice_curl i) as (E1 & E2 & E3). rewrite HI in E3.
+    destruct b as [|[|[|b]]]; try lia; destruct c as [|[|[|c]]]; try lia; first [reflexivity|assumption|symmetry; assumption|lra].
+  Qed.
 End Facts.
 
 (* ---------- (f) scale length and (g) the API variants: any operators ---------- *)
@@ -545,3 +636,6 @@ Print Assumptions C10_scale_length.
 Print Assumptions C10_cylindrical_is_frenet.
 Print Assumptions C10_cartesian_is_rotation_of_that.
 Print Assumptions C10_cartesian_rotates_frenet.
+Check C10_tangent_slice_curl. Check C10_vacuum_tangent_slice_symmetric.
+Print Assumptions C10_tangent_slice_curl.
+Print Assumptions C10_vacuum_tangent_slice_symmetric.
